@@ -6,6 +6,10 @@
      reset --hard, checkout -f, switch --discard-changes, stash drop, partial stash, …), by extending
      the combined invariant `RInv2` (Lemmas/Discard.lean, Lemmas/DiscardRun.lean); the regressions
      O3, O17, O20, O21 as decided contrasts between the pre-fix and the current behaviour.
+     A path checkout (`discardFile`) is a restore followed by a human checkpoint since /repo 11d1e52e: what
+     it discards has no claim left (`discard_drops_claims`), what it puts back keeps its author
+     (`path_checkout_exact`, `regression_path_checkout_keeps_staged_ai_line`); its hypothesis is `WorkOK` of
+     the staged version, as for `git restore` (the former `IndexClean` is gone).
   The model is tied to the binary by vlib/props/c03.py (`correspondence:discard-e2e`): the C03 walks and
   recipes inside the alphabet are replayed by the driver op `disc_run`, notes and blame must agree.
 -/
@@ -185,21 +189,90 @@ theorem wlAuthor_no_claims (st : State) (he : st.entries = []) (hi : st.initial 
   rw [checkpointAttr_no_claims, lookup_map]
   by_cases hy : y ∈ st.work <;> simp [hy]
 
-/-- **a discarding operation drops the claims about what it discards.** After `git checkout -- <path>`,
-    `git reset --hard [HEAD~k]` and `git checkout -f <other>` / `git switch --discard-changes <other>` the
-    file has no working-log entry and no INITIAL claim, so WHATEVER is typed into the file next (`ys`),
-    the working log credits none of it to a session; `git stash drop` removes the newest stash entry
-    together with its claims and leaves the others alone. (`git restore <path>`, `git checkout <path>`
-    and `git checkout -f` on the same tip run no hook: the claims stay and are re-examined through their
-    recorded content — that they never credit a person's line is `no_invention_all_ops`.) -/
+/-- a snapshot says nothing about a line it does not hold -/
+theorem lookup_not_mem (y : Nat) : ∀ (snap : List Nat) (attr : List Author), y ∉ snap → lookup snap attr y = none
+  | [], _, _ => by simp [lookup]
+  | _ :: _, [], _ => by simp [lookup]
+  | x :: xs, a :: as, h => by
+    have hx : x ≠ y := fun e => h (by simp [e])
+    have ht : y ∉ xs := fun e => h (by simp [e])
+    simp [lookup, hx, lookup_not_mem y xs as ht]
+
+/-- a line that the latest snapshot does not hold is nobody's, whatever the file contains now -/
+theorem wlAuthor_not_in_latest (st : State) (e : Entry) (he : st.entries.getLast? = some e) (y : Nat)
+    (hy : y ∉ e.snap) : wlAuthor st y = none := by
+  unfold wlAuthor effective
+  rw [he]
+  simp only [checkpointAttr]
+  rw [lookup_map, lookup_not_mem y e.snap e.attr hy]
+  by_cases hw : y ∈ st.work <;> simp [hw]
+
+/-- after a path checkout the file's latest snapshot is the restored version — or the file has no claim at all -/
+theorem discardFile_latest (st : State) :
+    (∃ e, (discardFile st).entries.getLast? = some e ∧ e.snap = st.index) ∨
+    ((discardFile st).entries = [] ∧ (discardFile st).initial = []) := by
+  unfold discardFile checkpoint
+  simp only
+  split
+  · rename_i h
+    simp only [Bool.and_eq_true, Bool.not_eq_true', Bool.and_eq_false_iff, Bool.not_eq_false',
+      List.isEmpty_iff] at h
+    cases hE : st.entries.getLast? with
+    | some e =>
+      left
+      refine ⟨e, ?_, ?_⟩
+      · rfl
+      · have := h.1
+        simpa [previous, hE] using this
+    | none =>
+      right
+      have hnil : st.entries = [] := List.getLast?_eq_none_iff.1 hE
+      refine ⟨hnil, ?_⟩
+      rcases h.2 with h2 | h2
+      · exact absurd hnil (by simpa using h2)
+      · exact h2
+  · left
+    exact ⟨_, List.getLast?_concat .., rfl⟩
+
+/-- the claims of a file do not depend on what is typed into it afterwards -/
+theorem wlAuthor_not_in_latest' (st : State) (ys : List Nat) (e : Entry) (he : st.entries.getLast? = some e) (y : Nat)
+    (hy : y ∉ e.snap) : wlAuthor { st with work := ys } y = none :=
+  wlAuthor_not_in_latest { st with work := ys } e he y hy
+
+/-- **a discarding operation drops the claims about what it discards.** After `git checkout -- <path>` a
+    line that the restored version does not hold is in no snapshot the working log reads: WHATEVER is
+    typed into the file next (`ys`), the working log credits no such line to a session (the lines the
+    checkout put back keep their author: `path_checkout_exact`). After `git reset --hard [HEAD~k]` and
+    `git checkout -f <other>` / `git switch --discard-changes <other>` the file has no working-log entry
+    and no INITIAL claim at all; `git stash drop` removes the newest stash entry together with its claims
+    and leaves the others alone. (`git restore <path>`, `git checkout <path>` and `git checkout -f` on
+    the same tip run no hook: the claims stay and are re-examined through their recorded content — that
+    they never credit a person's line is `no_invention_all_ops`.) -/
 theorem discard_drops_claims (r : RState) :
-    (∀ ys y, wlAuthor { (dstep r .discardFile).st with work := ys } y = none) ∧
+    (∀ ys y, y ∉ r.st.index → wlAuthor { (dstep r .discardFile).st with work := ys } y = none) ∧
     (∀ k ys y, wlAuthor { (dstep r (.resetHard k)).st with work := ys } y = none) ∧
     (∀ l n h ys y, wlAuthor { (dstep r (.checkoutForce l n h)).st with work := ys } y = none) ∧
     (dstep r .stashDrop).stash = r.stash.tail ∧
-    (dstep r .discardFile).stash = r.stash :=
-  ⟨fun _ y => wlAuthor_no_claims _ rfl rfl y, fun _ _ y => wlAuthor_no_claims _ rfl rfl y,
-   fun _ _ _ _ y => wlAuthor_no_claims _ rfl rfl y, rfl, rfl⟩
+    (dstep r .discardFile).stash = r.stash := by
+  refine ⟨?_, fun _ _ y => wlAuthor_no_claims _ rfl rfl y, fun _ _ _ _ y => wlAuthor_no_claims _ rfl rfl y, rfl, rfl⟩
+  intro ys y hy
+  rcases discardFile_latest r.st with ⟨e, he, hs⟩ | ⟨he, hi⟩
+  · exact wlAuthor_not_in_latest' (discardFile r.st) ys e he y (by rw [hs]; exact hy)
+  · exact wlAuthor_no_claims { discardFile r.st with work := ys } he hi y
+
+/-- **a path checkout keeps the claims about what it puts back** (the repaired
+    `reexamine_attributions_for_pathspecs`; C02 / C04 direction). In every reachable state, when the staged
+    version may be put into the working tree (`WorkOK`: each of its lines is in the snapshot the checkpoint
+    diffs against, or is nobody's), after `git checkout -- <path>` the working log credits every line of
+    the restored file to exactly the session that wrote it, and nothing else. -/
+theorem path_checkout_exact (root : List Nat) (sp : Spec) (h : RInv root sp) (hok : WorkOK sp sp.st.index) (y : Nat) :
+    wlAuthor (discardFile sp.st) y = if y ∈ sp.st.index then target sp y else none := by
+  have h' := (h.discardFile hok).inv2
+  have := wlAuthor_spec ⟨discardFile sp.st, sp.g, sp.seen⟩ h' y
+  rw [this]
+  have hw : (discardFile sp.st).work = sp.st.index := (checkpoint_fields _ none).1
+  have hh : (discardFile sp.st).head = sp.st.head := (checkpoint_fields _ none).2.1
+  simp only [hw, target, hh]
 
 /-! ### regressions: the pre-fix reading of the claims against the current one -/
 
@@ -276,21 +349,36 @@ example : ValidDOps [1, 2, 3] ⟨cleanSpec [1, 2, 3] (fun _ => none), [], []⟩
   · exact ⟨⟨by decide, by decide⟩, by decide, by decide⟩
   · exact ⟨by decide⟩
 
-/-- **what `IndexClean` excludes, decided.** An agent's line `9` is staged (`git add`), the person edits
-    further, then `git checkout -- f`: git puts the staged version — with `9` — back into the working
-    tree and the hook removes every claim of the file. The commit lists nothing: the AI line is LOST
-    (ghost `some 7`, blame `none`), nothing is invented. The excluded region of `IndexClean` / `WorkOK`
-    only contains such losses (the other direction, C01/C02's concern). -/
-theorem witness_path_checkout_loses_staged_ai_line :
-    let r := dspecRun ⟨cleanSpec [1, 2, 3] (fun _ => none), [], []⟩
-      [.r (.base (.aiEdit 7 [1, 9, 2, 3])), .r (.base .stageAll), .r (.base (.humanEdit [1, 9, 2, 3, 4])), .discardFile,
-       .r (.base .stageAll), .r (.base .commit)]
+/-- **the staged AI line survives a path checkout (was: what `IndexClean` excluded).** An agent's line `9` is
+    staged (`git add`), the person edits further, then `git checkout -- f`: git puts the staged version —
+    with `9` — back into the working tree. Now: the post-checkout checkpoint carries the claim over, the
+    commit credits line 2 to session 7 and blame agrees with the ghost. Before
+    (`remove_attributions_for_pathspecs`, `discardFileDrop`): every claim of the file was removed and the
+    commit listed nothing — the AI line was committed as a person's. -/
+theorem regression_path_checkout_keeps_staged_ai_line :
+    let pre : List DOp := [.r (.base (.aiEdit 7 [1, 9, 2, 3])), .r (.base .stageAll), .r (.base (.humanEdit [1, 9, 2, 3, 4]))]
+    let r0 : RSpec := ⟨cleanSpec [1, 2, 3] (fun _ => none), [], []⟩
+    let r := dspecRun r0 (pre ++ [.discardFile, .r (.base .stageAll), .r (.base .commit)])
+    r.sp.st.head = [1, 9, 2, 3] ∧ r.sp.g 9 = some 7 ∧ r.sp.st.notes.head? = some [(2, 7)] ∧
+    blame r.sp.st.log r.sp.st.notes 9 = some 7 ∧
+    WorkOK (dspecRun r0 pre).sp (dspecRun r0 pre).sp.st.index ∧
+    (run (discardFileDrop (dspecRun r0 pre).sp.st) [.stageAll, .commit]).notes.head? = some [] := by
+  refine ⟨by decide, by decide, by decide, by decide, ⟨by decide, by decide, by decide⟩, by decide⟩
+
+/-- **what `WorkOK` still excludes at a path checkout, decided.** An agent's line `9` is staged, the agent
+    then removes it again (its checkpoint records the file without `9`), and `git checkout -- f` brings the
+    staged version back: the latest snapshot does not hold `9`, the post-checkout checkpoint records it as
+    a person's, the commit lists nothing. A LOSS (ghost `some 7`, blame `none`; `git restore f` behaves the
+    same), nothing is invented: carrying it over would need the earlier snapshots of the file. -/
+theorem witness_path_checkout_loses_line_removed_after_staging :
+    let pre : List DOp := [.r (.base (.aiEdit 7 [1, 9, 2, 3])), .r (.base .stageAll), .r (.base (.aiEdit 7 [1, 2, 3]))]
+    let r0 : RSpec := ⟨cleanSpec [1, 2, 3] (fun _ => none), [], []⟩
+    let r := dspecRun r0 (pre ++ [.discardFile, .r (.base .stageAll), .r (.base .commit)])
     r.sp.st.head = [1, 9, 2, 3] ∧ r.sp.g 9 = some 7 ∧ blame r.sp.st.log r.sp.st.notes 9 = none ∧
-    ¬ IndexClean (dspecRun ⟨cleanSpec [1, 2, 3] (fun _ => none), [], []⟩
-      [.r (.base (.aiEdit 7 [1, 9, 2, 3])), .r (.base .stageAll), .r (.base (.humanEdit [1, 9, 2, 3, 4]))]).sp := by
+    ¬ WorkOK (dspecRun r0 pre).sp (dspecRun r0 pre).sp.st.index := by
   refine ⟨by decide, by decide, by decide, ?_⟩
   intro h
-  have := h.clean 9 (by decide)
+  have := h.rest 9 (by decide) (by decide)
   revert this
   decide
 
@@ -303,7 +391,9 @@ end GitAi.Sys
 #print axioms GitAi.Sys.regression_O20_initial_by_line_number_after_restore
 #print axioms GitAi.Sys.regression_O17_stale_entry_after_restore
 #print axioms GitAi.Sys.regression_O21_stash_drop_stale_entry
-#print axioms GitAi.Sys.witness_path_checkout_loses_staged_ai_line
+#print axioms GitAi.Sys.path_checkout_exact
+#print axioms GitAi.Sys.regression_path_checkout_keeps_staged_ai_line
+#print axioms GitAi.Sys.witness_path_checkout_loses_line_removed_after_staging
 #print axioms GitAi.Sys.no_invention
 #print axioms GitAi.Sys.ghost_only_from_agent_edit
 #print axioms GitAi.Sys.restore_is_valid_edit
